@@ -374,7 +374,9 @@ namespace BitSerializer::Convert::Detail
 			if (utc.Year >= 10000) {
 				*pos++ = '+';
 			}
-			const size_t outSize = snprintf(pos, endPos - pos, "%04" PRId64 "-%02d-%02dT%02d:%02d:%02d", utc.Year, utc.Month, utc.Day, utc.Hour, utc.Min, utc.Sec);
+			// The year has at least four digits, the sign is not counted (-0044-03-15T00:00:00Z)
+			const size_t outSize = snprintf(pos, endPos - pos, utc.Year < 0 ? "%05" PRId64 "-%02d-%02dT%02d:%02d:%02d" : "%04" PRId64 "-%02d-%02dT%02d:%02d:%02d",
+				utc.Year, utc.Month, utc.Day, utc.Hour, utc.Min, utc.Sec);
 			if (outSize > 0)
 			{
 				pos += outSize;
